@@ -270,6 +270,12 @@ enum EA {
         list: Vec<String>,
     },
     Another,
+    /// every field optional: `parameters` is still one object holding whatever is there
+    AllOptional {
+        first: Option<u8>,
+        #[zlink(rename = "secondOne")]
+        second: Option<String>,
+    },
 }
 
 #[derive(Debug, PartialEq, Clone, zlink_core::ReplyError)]
@@ -407,6 +413,9 @@ fn all_error_cases(sink: &mut Sink<'_>) {
     let t = "EB<'_>";
     error_case(t, &EB::Unit2, "b.Unit2", None, sink);
     error_case(t, &EB::Borrowed { what: "thing", n: u64::MAX }, "b.Borrowed", Some(json!({"what": "thing", "n": u64::MAX})), sink);
+    for (a, b) in [(Some(3u8), Some("s")), (Some(0), None), (None, Some("only")), (None, None)] {
+        error_case("EA", &EA::AllOptional { first: a, second: b.map(|x| x.to_string()) }, "org.ex.A.AllOptional", Some(json!({"first": a, "secondOne": b})), sink);
+    }
     let t = "EC<'_>";
     error_case(t, &EC::IoError, "org.ex.C.IOError", None, sink);
     error_case(t, &EC::LowerCase, "org.ex.C.lower_case", None, sink);
